@@ -159,6 +159,33 @@ def build():
     st = fn_body(impl_body(src, r"impl<Target:\s*Composer>\s*Truncate\s+for\s+StreamTarget<Target>\s*\{"), "truncate")
     one(r"self\.update_shim\(\)\.expect\(", st, "StreamTarget::truncate expect")
 
+    # ---- StreamTarget coordinates: the message lives behind a two octet prefix of the inner buffer
+    stt = fn_body(impl_body(src, r"impl<Target:\s*Composer>\s*Truncate\s+for\s+StreamTarget<Target>\s*\{"), "truncate")
+    m1 = one(r"self\.target\s*\.truncate\(len\.checked_add\((\d+)\)\.expect\(\"long truncate\"\)\);", stt, "StreamTarget::truncate offset")
+    m2 = one(r"u16::try_from\(self\.target\.as_ref\(\)\.len\(\)\s*-\s*(\d+)\)", us, "update_shim offset")
+    m3 = one(r"self\.target\.as_mut\(\)\[\.\.(\d+)\]\.copy_from_slice\(&len\.to_be_bytes\(\)\)", us, "update_shim prefix position")
+    views = re.findall(r"&(?:mut )?self\.target\.as_(?:ref|mut)\(\)\[(\d+)\.\.\]", src)
+    if len(views) != 3:
+        raise GenError("StreamTarget as_ref/as_mut/as_dgram_slice: expected three [n..] views, found %d" % len(views))
+    vals = set([num(m1.group(1)), num(m2.group(1)), num(m3.group(1))] + [num(v) for v in views])
+    if len(vals) != 1:
+        raise GenError("StreamTarget: prefix length differs between truncate/update_shim/views: %r" % sorted(vals))
+    one(r"target\.truncate\(0\);\s*0u16\.compose\(&mut target\)\?;", fn_body(src, "new", after="impl<Target: Composer> StreamTarget<Target>"), "StreamTarget::new prefix")
+    sapp = fn_body(impl_body(src, r"impl<Target>\s*OctetsBuilder\s+for\s+StreamTarget<Target>\s*where[^{]*\{"), "append_slice")
+    one(r"^\s*self\.target\.append_slice\(slice\)\.map_err\(Into::into\)\?;\s*self\.update_shim\(\)\s*$", sapp, "StreamTarget::append_slice (no roll back of its own)")
+    defs.append(("stream_prefix_len", "N", N(vals.pop())))
+
+    # ---- Header setters: offsets and bit positions
+    for nm_, var in (("qr", "hb_qr"), ("aa", "hb_aa"), ("tc", "hb_tc"), ("rd", "hb_rd"), ("ra", "hb_ra"), ("z", "hb_z"), ("ad", "hb_ad"), ("cd", "hb_cd")):
+        mm = one(r"pub fn set_%s\(&mut self, set: bool\)\s*\{\s*self\.set_bit\((\d+),\s*(\d+),\s*set\)" % nm_, hs, "Header::set_" + nm_)
+        defs.append((var, "N * N", "(%s, %s)" % (N(num(mm.group(1))), N(num(mm.group(2))))))
+    one(r"fn set_bit\(&mut self, offset: usize, bit: usize, set: bool\)\s*\{\s*if set\s*\{\s*self\.inner\[offset\]\s*\|=\s*1\s*<<\s*bit\s*\}\s*else\s*\{\s*self\.inner\[offset\]\s*&=\s*!\(1\s*<<\s*bit\)", hs, "Header::set_bit")
+    mm = one(r"pub fn set_opcode\(&mut self, opcode: Opcode\)\s*\{\s*self\.inner\[(\d+)\]\s*=\s*self\.inner\[\1\]\s*&\s*" + HEX + r"\s*\|\s*\(opcode\.to_int\(\)\s*<<\s*(\d+)\)", hs, "Header::set_opcode")
+    defs.append(("hb_opcode", "N * N * N", "(%s, %s, %s)" % (N(num(mm.group(1))), N(num(mm.group(2))), N(num(mm.group(3))))))
+    mm = one(r"pub fn set_rcode\(&mut self, rcode: Rcode\)\s*\{\s*self\.inner\[(\d+)\]\s*=\s*self\.inner\[\1\]\s*&\s*" + HEX + r"\s*\|\s*\(rcode\.to_int\(\)\s*&\s*" + HEX + r"\)", hs, "Header::set_rcode values")
+    defs.append(("hb_rcode", "N * N * N", "(%s, %s, %s)" % (N(num(mm.group(1))), N(num(mm.group(2))), N(num(mm.group(3))))))
+    one(r"pub fn set_id\(&mut self, value: u16\)\s*\{\s*self\.inner\[\.\.2\]\.copy_from_slice\(&value\.to_be_bytes\(\)\)", hs, "Header::set_id")
+
     # ---- compose_prefixed: u16::try_from(..).expect("long data")
     rd = strip_comments(read("src/base/rdata.rs"))
     cp = fn_body(rd, "compose_prefixed")
@@ -204,6 +231,12 @@ def build():
     rcm = fn_body(recs, "compose", after="impl<N: ToName, D: RecordData + ComposeRecordData> Record<N, D>")
     one(r"target\.append_compressed_name\(&self\.owner\)\?;\s*self\.data\.rtype\(\)\.compose\(target\)\?;\s*self\.class\.compose\(target\)\?;\s*self\.ttl\.compose\(target\)\?;\s*self\.data\.compose_len_rdata\(target\)\s*$", rcm, "Record::compose field order")
     defs.append(("record_compose_fields_in_order", "bool", "true"))
+
+    # ---- OptBuilder::clone_from: drop what build() wrote so far, compose the source record
+    cf = fn_body(src, "clone_from", after="impl<'a, Target: Composer + ?Sized> OptBuilder<'a, Target>")
+    one(r"^\s*self\.target\.truncate\(self\.start\);\s*source\.as_record\(\)\.compose\(self\.target\)\s*$", cf, "OptBuilder::clone_from")
+    one(r"Ttl::from_secs\(\s*\(u32::from\(self\.ext_rcode\)\s*<<\s*24\)\s*\|\s*\(u32::from\(self\.version\)\s*<<\s*16\)\s*\|\s*u32::from\(self\.flags\),?\s*\)", opt, "OptRecord::as_record TTL packing")
+    defs.append(("opt_clone_from_anchored", "bool", "true"))
 
     # ---- Label equality / hashing fold ASCII case (Static and Hash compressors), tree does not
     lb = strip_comments(read("src/base/name/label.rs"))
